@@ -342,6 +342,7 @@ def run(ctx):
         for b, i, s in f.assigns():
             if s["r"]["k"] == "agg" and s["r"].get("adt") == "lace::parser::AsmParser":
                 ctx.instance(1)
+                ctx.need("line" in s["r"].get("fields", []), "the statement counter of AsmParser (field `line`) set by %s" % short(ctor))
                 idx = s["r"]["fields"].index("line")
                 ok = const_int(s["r"]["ops"][idx]) == 1
                 ctx.oblig(ok, {short(ctor): "line starts at %s" % const_int(s["r"]["ops"][idx])}, "1")
